@@ -20,6 +20,7 @@ import (
 	"encoding/json"
 	"fmt"
 	"os"
+	"strconv"
 	"strings"
 
 	"github.com/zeromicro/go-zero/core/logx"
@@ -67,9 +68,12 @@ func main() {
 	}
 
 	if cfg.Shard == "" { // not a vx shard worker: run (or serve) the history search first
-		depth := 6
+		depth := 7
 		if cfg.Thorough() {
-			depth = 8
+			depth = 9
+		}
+		if v, err := strconv.Atoi(os.Getenv("C19_DEPTH")); err == nil {
+			depth = v
 		}
 		alpha := alphabet()
 		bfs := &vlib.PBFS[Op]{
